@@ -117,6 +117,89 @@ func TestGvcReplay(t *testing.T) {
 }
 
 func init() {
+	boundedChecks = append(boundedChecks, boundedCheck{prop: "C06", name: "bounded:hash.Hash/fields", fn: "github.com/go-task/task/v3/internal/hash.Hash",
+		why:    "the when_changed key is computed by hashstructure through reflection; which fields (and which parts of the ordered variable maps) reach the hash cannot be stated as an obligation over go/ssa",
+		bound:  "one pair of compiled tasks per exported field of ast.Task (enumerated by reflection, so new fields are covered), differing in that field only - for *Vars fields in the VALUE of one variable, for nested structs in every settable field down to depth 3; the two keys must differ",
+		pkgRel: "internal/hash",
+		src: `package hash
+
+import (
+	"fmt"
+	"reflect"
+	"testing"
+
+	"github.com/go-task/task/v3/taskfile/ast"
+)
+
+func gvcSample(t reflect.Type, seed, depth int) reflect.Value {
+	switch t.Kind() {
+	case reflect.String:
+		return reflect.ValueOf(fmt.Sprintf("x%d", seed)).Convert(t)
+	case reflect.Bool:
+		return reflect.ValueOf(seed%2 == 0).Convert(t)
+	case reflect.Int, reflect.Int8, reflect.Int16, reflect.Int32, reflect.Int64, reflect.Uint, reflect.Uint8, reflect.Uint16, reflect.Uint32, reflect.Uint64:
+		return reflect.ValueOf(seed).Convert(t)
+	case reflect.Interface:
+		return reflect.ValueOf(fmt.Sprintf("v%d", seed))
+	case reflect.Slice:
+		s := reflect.MakeSlice(t, 1, 1)
+		s.Index(0).Set(gvcSample(t.Elem(), seed, depth+1))
+		return s
+	case reflect.Ptr:
+		if t == reflect.TypeOf(&ast.Vars{}) {
+			v := ast.NewVars()
+			v.Set("A", ast.Var{Value: fmt.Sprintf("%d", seed)})
+			return reflect.ValueOf(v)
+		}
+		p := reflect.New(t.Elem())
+		if depth < 3 {
+			p.Elem().Set(gvcSample(t.Elem(), seed, depth+1))
+		}
+		return p
+	case reflect.Struct:
+		v := reflect.New(t).Elem()
+		for i := 0; i < t.NumField(); i++ {
+			if v.Field(i).CanSet() && depth < 3 {
+				v.Field(i).Set(gvcSample(t.Field(i).Type, seed, depth+1))
+			}
+		}
+		return v
+	}
+	return reflect.Zero(t)
+}
+
+func TestGvcReplay(t *testing.T) {
+	tt := reflect.TypeOf(ast.Task{})
+	n := 0
+	for i := 0; i < tt.NumField(); i++ {
+		f := tt.Field(i)
+		if !f.IsExported() {
+			continue
+		}
+		a, b := &ast.Task{Task: "t"}, &ast.Task{Task: "t"}
+		va, vb := gvcSample(f.Type, 1, 0), gvcSample(f.Type, 2, 0)
+		if reflect.DeepEqual(va.Interface(), vb.Interface()) && f.Type != reflect.TypeOf(&ast.Vars{}) {
+			continue // no two distinct samples for this type
+		}
+		reflect.ValueOf(a).Elem().Field(i).Set(va)
+		reflect.ValueOf(b).Elem().Field(i).Set(vb)
+		if f.Name == "Task" {
+			continue // the name is part of the key text itself
+		}
+		n++
+		ha, errA := Hash(a)
+		hb, errB := Hash(b)
+		if errA != nil || errB != nil {
+			t.Errorf("GVC-REPLAY-REPRODUCED: hashing a task with field %s set fails: %v %v", f.Name, errA, errB)
+			continue
+		}
+		if ha == hb {
+			t.Errorf("GVC-REPLAY-REPRODUCED: two compiled tasks that differ only in %s (%s) get the same when_changed key %s", f.Name, f.Type, ha)
+		}
+	}
+	fmt.Printf("GVC-BOUNDED-CASES %d\n", n)
+}
+`})
 	for i := range boundedChecks {
 		boundedChecks[i].src = strings.TrimLeft(boundedChecks[i].src, "\n")
 	}
